@@ -152,7 +152,7 @@ fn host_main(sc: &Scenario, host: u64, meta_out: Arc<Mutex<Vec<ProbeMeta>>>, tmp
     let mut consumers = Vec::new();
     for (id, kind, h) in sinks {
         match h {
-            crate::job::SinkHandle::Chan(rx) if host == 0 => {
+            crate::job::SinkHandle::Chan(rx) if host == 0 && kind == SinkKind::CollectChannel => {
                 consumers.push((
                     id,
                     simrt::rt::spawn_on(format!("sink-consumer-{}", id), None, move || {
